@@ -106,13 +106,19 @@ structure RegReq where
   isMethod : Bool := false
 deriving Inhabited
 
+/-- the `Configurable` record a successful registration stores -/
+def RegReq.cfgable (r : RegReq) : Cfgable :=
+  { selector := (r.module.getD []) ++ r.name, sig := r.sig, allow := r.allow, deny := r.deny,
+    isMethod := r.isMethod }
+
 def register (st : State) (r : RegReq) : Except Err State :=
   if st.locked then .error .runtimeError else
   if !r.nameValid then .error .valueError else
   -- a dotted name ignores the default module but not an explicit one: the harness passes the
   -- effective module (explicit, or `__module__` when the name is a plain identifier)
   if !r.moduleValid then .error .valueError else
-  let selector : Sel := (r.module.getD []) ++ r.name
+  let c := r.cfgable
+  let selector : Sel := c.selector
   let clash := match st.registry.get? selector with
     | some e => !st.interactive && e.objId != r.objId
     | none => false
@@ -120,7 +126,6 @@ def register (st : State) (r : RegReq) : Except Err State :=
   if !r.allow.isEmpty && !r.deny.isEmpty then .error .valueError else
   if !r.listTypesOk then .error .typeError else
   if !(r.allow.all r.sig.mightHave) || !(r.deny.all r.sig.mightHave) then .error .valueError else
-  let c : Cfgable := { selector, sig := r.sig, allow := r.allow, deny := r.deny, isMethod := r.isMethod }
   if !c.requiredKwargsValid then .error .valueError else
   .ok { st with registry := st.registry.set selector { cfg := c, objId := r.objId } }
 
